@@ -211,7 +211,39 @@ def check(index, ctx):
                 if isinstance(e, (_ast.Dict, _ast.List, _ast.Set)) and not nm.startswith("__") or (isinstance(e, _ast.Call) and norm_text(e.func) in ("dict", "list", "set", "defaultdict", "WeakKeyDictionary", "weakref.WeakKeyDictionary")):
                     if nm == "__all__":
                         continue
-                    ctx.violated("R3", f"{mod.name}.{nm}: module-level mutable container", "hidden state shared between calls of the aggregators", f"{mod.path}:{getattr(e, 'lineno', 0)}")
+                    # a table that is only read (subscripted, iterated, tested for membership) is a constant, not state
+                    MUT_ = {"append", "appendleft", "extend", "add", "update", "setdefault", "pop", "popitem", "clear", "remove", "discard", "insert", "sort", "reverse", "__setitem__"}
+                    writes, escapes = [], []
+                    for m2 in index.modules.values():
+                        if not m2.name.startswith("torchjd.aggregation"):
+                            continue
+                        imported = m2 is mod or any(imp[0] == "obj" and imp[2] == nm and imp[1].endswith(mod.name.split(".")[-1]) for imp in m2.imports.values())
+                        if not imported:
+                            continue
+                        parents = {}
+                        for par in _ast.walk(m2.tree):
+                            for ch in _ast.iter_child_nodes(par):
+                                parents[id(ch)] = par
+                        for x in _ast.walk(m2.tree):
+                            if isinstance(x, _ast.Name) and x.id == nm:
+                                par = parents.get(id(x))
+                                if isinstance(x.ctx, _ast.Store) and par is not None and not (isinstance(par, (_ast.Assign, _ast.AnnAssign)) and par in m2.tree.body):
+                                    writes.append(par)
+                                elif isinstance(par, _ast.Subscript) and isinstance(par.ctx, (_ast.Store, _ast.Del)):
+                                    writes.append(par)
+                                elif isinstance(par, _ast.Attribute) and par.attr in MUT_:
+                                    writes.append(par)
+                                elif isinstance(par, _ast.AugAssign) and par.target is x:
+                                    writes.append(par)
+                                elif isinstance(par, _ast.Call) and x in par.args and norm_text(par.func) not in ("len", "sorted", "list", "tuple", "set", "frozenset", "dict", "iter", "enumerate", "zip", "min", "max", "sum", "any", "all", "repr", "str"):
+                                    escapes.append(par)
+                    key_ = f"{mod.name}.{nm}: module-level mutable container"
+                    if writes:
+                        ctx.violated("R3", key_, f"hidden state shared between calls of the aggregators: it is modified by `{norm_text(writes[0])[:60]}`", f"{mod.path}:{getattr(e, 'lineno', 0)}")
+                    elif escapes:
+                        ctx.undecided("R3", key_, f"the container is handed to `{norm_text(escapes[0])[:60]}`: whether it is modified there was not followed", f"{mod.path}:{getattr(e, 'lineno', 0)}")
+                    else:
+                        ctx.ok("R3", key_, "a table that is only read (never stored into, never handed on): a constant", f"{mod.path}:{getattr(e, 'lineno', 0)}")
     ctx.ok("R3", "torchjd.aggregation: no memoisation / module-level mutable state", f"{n_fn} functions and the module globals scanned", "", nontrivial=False)
     _agg.common_evidence(ctx, index)
     ctx.assumptions.append("finiteness/totality of the result over extreme scales is NOT decided (overflow, conditioning and solver failures are runtime phenomena)")
